@@ -72,7 +72,8 @@ impl PixelDataReader for RleLosslessAdapter {
             let fragment = &src
                 .fragment(i)
                 .whatever_context("No pixel data found for frame")?;
-            let mut offsets = read_rle_header(fragment);
+            let mut offsets =
+                read_rle_header(fragment).whatever_context("Invalid RLE header in fragment")?;
             offsets.push(fragment.len() as u32);
 
             for sample_number in 0..samples_per_pixel {
@@ -80,7 +81,8 @@ impl PixelDataReader for RleLosslessAdapter {
                     // ii is 1, 0, 3, 2, 5, 4 for the example above
                     // This is where the segment order correction occurs
                     let ii = sample_number * bytes_per_sample + byte_offset;
-                    let segment = &fragment[offsets[ii] as usize..offsets[ii + 1] as usize];
+                    let segment = rle_segment(fragment, &offsets, ii)
+                        .whatever_context("RLE segment not found in fragment")?;
                     let buff = io::Cursor::new(segment);
                     let (_, decoder) = PackBitsReader::new(buff, segment.len())
                         .whatever_context("Failed to read RLE segments")?;
@@ -89,6 +91,9 @@ impl PixelDataReader for RleLosslessAdapter {
                         .take(rows as u64 * cols as u64)
                         .read_to_end(&mut decoded_segment)
                         .unwrap();
+                    if decoded_segment.len() < rows as usize * cols as usize {
+                        whatever!("RLE segment is shorter than the frame");
+                    }
 
                     // Interleave pixels as described in the example above.
                     // in 16-bit, this is:
@@ -181,7 +186,8 @@ impl PixelDataReader for RleLosslessAdapter {
         let fragment = &src
             .fragment(frame as usize)
             .whatever_context("No pixel data found for frame")?;
-        let mut offsets = read_rle_header(fragment);
+        let mut offsets =
+                read_rle_header(fragment).whatever_context("Invalid RLE header in fragment")?;
         offsets.push(fragment.len() as u32);
 
         for sample_number in 0..samples_per_pixel {
@@ -189,7 +195,8 @@ impl PixelDataReader for RleLosslessAdapter {
                 // ii is 1, 0, 3, 2, 5, 4 for the example above
                 // This is where the segment order correction occurs
                 let ii = sample_number * bytes_per_sample + byte_offset;
-                let segment = &fragment[offsets[ii] as usize..offsets[ii + 1] as usize];
+                let segment = rle_segment(fragment, &offsets, ii)
+                        .whatever_context("RLE segment not found in fragment")?;
                 let buff = io::Cursor::new(segment);
                 let (_, decoder) = PackBitsReader::new(buff, segment.len())
                     .map_err(|e| Box::new(e) as Box<_>)
@@ -199,6 +206,9 @@ impl PixelDataReader for RleLosslessAdapter {
                     .take(rows as u64 * cols as u64)
                     .read_to_end(&mut decoded_segment)
                     .unwrap();
+                if decoded_segment.len() < rows as usize * cols as usize {
+                    whatever!("RLE segment is shorter than the frame");
+                }
 
                 // Interleave pixels as described in the example above.
                 // segments come most significant byte first,
@@ -222,11 +232,29 @@ impl PixelDataReader for RleLosslessAdapter {
 // TODO(#125) implement `encode`
 
 // Read the RLE header and return the offsets
-fn read_rle_header(fragment: &[u8]) -> Vec<u32> {
+///
+/// Returns `None` if the fragment is too short to hold an RLE header
+/// or announces more segments than the header can describe.
+fn read_rle_header(fragment: &[u8]) -> Option<Vec<u32>> {
+    // the RLE header is 64 bytes long: the number of segments and up to 15 offsets
+    if fragment.len() < 64 {
+        return None;
+    }
     let nr_segments = LittleEndian::read_u32(&fragment[0..4]);
+    if nr_segments > 15 {
+        return None;
+    }
     let mut offsets = vec![0; nr_segments as usize];
     LittleEndian::read_u32_into(&fragment[4..4 * (nr_segments + 1) as usize], &mut offsets);
-    offsets
+    Some(offsets)
+}
+
+/// Fetch the bytes of segment `ii` of the fragment,
+/// or `None` if the header does not describe such a segment within the fragment.
+fn rle_segment<'a>(fragment: &'a [u8], offsets: &[u32], ii: usize) -> Option<&'a [u8]> {
+    let start = *offsets.get(ii)? as usize;
+    let end = *offsets.get(ii + 1)? as usize;
+    fragment.get(start..end)
 }
 
 /// PackBits Reader from the image-tiff crate
